@@ -798,14 +798,18 @@ theorem stepGrid_spec {M : Model} {g : Grid} (hm : MWF M g.sigF) (hg : GInv M g)
   | method m =>
     have hmeth := hm.meth m
     simp only [methodOK, Bool.and_eq_true, List.isEmpty_iff] at hmeth
-    have G := getMany_sound g.sid hm.wf FUEL (M.method m).reads (g.st, gl) hg.inv
-      (fuelOK _)
-    have hnum : anyChunked (getMany (M.table g.sigF) FUEL (M.method m).reads (g.st, gl)).1.1
-        (M.method m).numpyOnly = false := by
+    have G0 := getMany_sound g.sid hm.wf FUEL
+      ((M.method m).whenPresent.flatMap (fun p => if (g.st p.1).isSome then p.2 else []))
+      (g.st, gl) hg.inv (fuelOK _)
+    have G := getMany_sound g.sid hm.wf FUEL (M.method m).reads _ G0.1 (fuelOK _)
+    have hnum : anyChunked (getMany (M.table g.sigF) FUEL (M.method m).reads
+        (getMany (M.table g.sigF) FUEL
+          ((M.method m).whenPresent.flatMap (fun p => if (g.st p.1).isSome then p.2 else []))
+          (g.st, gl)).1).1.1 (M.method m).numpyOnly = false := by
       rw [hmeth.1.2]; rfl
     simp only [stepGrid, hnum, hmeth.1.1, List.foldl_nil, Bool.false_eq_true, ↓reduceIte]
-    refine ⟨⟨G.1, hg.cache⟩, G.2.2.1, by first | rfl | trivial, by first | rfl | trivial,
-      fun _ h => Le.isSome G.2.1 h, ?_⟩
+    refine ⟨⟨G.1, hg.cache⟩, by rw [G.2.2.1, G0.2.2.1], by first | rfl | trivial, by first | rfl | trivial,
+      fun _ h => Le.isSome G.2.1 (Le.isSome G0.2.1 h), ?_⟩
     intro _
     simp only [spec, G.2.2.2.1]
     congr 3
